@@ -656,8 +656,8 @@ func dataPtr(b []byte) uintptr { return (*reflect.SliceHeader)(unsafe.Pointer(&b
 
 type ownResult struct {
 	kind  byte
-	bytes []byte      // the returned slice itself (not a copy)
-	str   string      // the returned string itself
+	bytes []byte // the returned slice itself (not a copy)
+	str   string // the returned string itself
 	isStr bool
 	val   interface{} // a decoded value
 	node  *ast.Node   // a node that must keep answering the same
@@ -707,7 +707,85 @@ func cloneStrs(ss []string) []string {
 	return out
 }
 
-var ownAPI = map[bool]sonic.API{false: sonic.Config{}.Froze(), true: sonic.Config{EscapeHTML: true}.Froze()}
+var ownAPIs = [4]sonic.API{sonic.Config{}.Froze(), sonic.Config{EscapeHTML: true}.Froze(),
+	sonic.Config{ValidateString: true}.Froze(), sonic.Config{EscapeHTML: true, ValidateString: true}.Froze()}
+
+// encoder configuration of a history call: bit 0 EscapeHTML, bit 1 ValidateString
+func ownAPIOf(o string) sonic.API {
+	n, err := strconv.Atoi(o)
+	if err != nil || n < 0 || n > 3 {
+		panic("bad call options")
+	}
+	return ownAPIs[n]
+}
+
+func ownHTML(o string) bool { return o == "1" || o == "3" }
+
+// ---- re-entrant encoding: two encoder buffers live in ONE goroutine
+
+type ownNestT struct {
+	A     int       `json:"a"`
+	B     string    `json:"b"`
+	Inner ownReJSON `json:"inner"`
+	Tail  string    `json:"tail"`
+}
+
+type ownNestTextT struct {
+	A     int       `json:"a"`
+	B     string    `json:"b"`
+	Inner ownReText `json:"inner"`
+	Tail  string    `json:"tail"`
+}
+
+// MarshalJSON / MarshalText run while the outer encoder holds its buffer and call the encoder again
+type ownReJSON struct {
+	depth int
+	v     interface{}
+	enc   func(interface{}) ([]byte, error)
+}
+
+type ownReText ownReJSON
+
+func (r ownReJSON) MarshalJSON() ([]byte, error) {
+	if r.depth == 0 {
+		return r.enc(r.v)
+	}
+	return r.enc(ownNestT{42, "inner-value", ownReJSON{r.depth - 1, r.v, r.enc}, "the-end"})
+}
+
+func (r ownReText) MarshalText() ([]byte, error) {
+	if r.depth == 0 {
+		return r.enc(r.v)
+	}
+	return r.enc(ownNestTextT{42, "inner-value", ownReText{r.depth - 1, r.v, r.enc}, "the-end"})
+}
+
+// UnmarshalJSON runs inside the decoder and calls the encoder
+type ownDecCb struct {
+	v   interface{}
+	enc func(interface{}) ([]byte, error)
+	out []byte
+	err error
+}
+
+func (c *ownDecCb) UnmarshalJSON(data []byte) error {
+	c.out, c.err = c.enc(c.v)
+	return nil
+}
+
+// the text the nested encodings must produce, written with the harness's own renderer
+func ownNestText(depth int, inner []byte, text bool) []byte {
+	for d := 0; d <= depth; d++ {
+		w := append([]byte(nil), `{"a":42,"b":"inner-value","inner":`...)
+		if text {
+			w = ownQuote(w, string(inner))
+		} else {
+			w = append(w, inner...)
+		}
+		inner = append(w, `,"tail":"the-end"}`...)
+	}
+	return inner
+}
 
 func encOpts(o string) encoder.Options {
 	n, err := strconv.Atoi(o)
@@ -755,6 +833,13 @@ func ownBurst(n int, limit int) {
 		}(g)
 	}
 	wg.Wait()
+}
+
+func ownHashOf(b []byte, err error) string {
+	if err != nil {
+		return "E"
+	}
+	return hex64(fnv64(b))
 }
 
 func stdHash(v *ownVal, html bool, indent bool, pre, ind string) string {
@@ -805,6 +890,7 @@ func init() {
 			r := &ownResult{kind: f[0][0]}
 			ref := "-"
 			key := ""
+			var again func() string // runs the same call once more
 			setBytes := func(b []byte, err error) {
 				if err != nil {
 					r.err = true
@@ -827,19 +913,23 @@ func init() {
 			switch f[0] {
 			case "M":
 				v := parseOwnVal(f[2])
-				setBytes(ownAPI[f[1] == "1"].Marshal(v.goValue()))
-				ref = stdHash(v, f[1] == "1", false, "", "")
+				gv := v.goValue()
+				setBytes(ownAPIOf(f[1]).Marshal(gv))
+				ref = stdHash(v, ownHTML(f[1]), false, "", "")
 				key = call
+				again = func() string { return ownHashOf(ownAPIOf(f[1]).Marshal(gv)) }
 			case "S":
 				v := parseOwnVal(f[2])
-				setStr(ownAPI[f[1] == "1"].MarshalToString(v.goValue()))
-				ref = stdHash(v, f[1] == "1", false, "", "")
+				gv := v.goValue()
+				setStr(ownAPIOf(f[1]).MarshalToString(gv))
+				ref = stdHash(v, ownHTML(f[1]), false, "", "")
 				key = "M" + call[1:]
+				again = func() string { return ownHashOf(ownAPIOf(f[1]).Marshal(gv)) }
 			case "I":
 				v := parseOwnVal(f[4])
 				pre, ind := string(unhexArg(f[2])), string(unhexArg(f[3]))
-				setBytes(ownAPI[f[1] == "1"].MarshalIndent(v.goValue(), pre, ind))
-				if f[1] == "1" { // encoding/json's MarshalIndent always escapes HTML
+				setBytes(ownAPIOf(f[1]).MarshalIndent(v.goValue(), pre, ind))
+				if ownHTML(f[1]) { // encoding/json's MarshalIndent always escapes HTML
 					ref = stdHash(v, true, true, pre, ind)
 				} else {
 					ref = stdHash(v, false, true, pre, ind)
@@ -940,6 +1030,75 @@ func init() {
 				for i := range src {
 					src[i] = 'Z'
 				}
+			case "J", "K":
+				// J|<depth>|<o>|<val>: Marshal of a struct whose field's MarshalJSON (K: MarshalText) calls Marshal again
+				depth, _ := strconv.Atoi(f[1])
+				v := parseOwnVal(f[3])
+				api := ownAPIOf(f[2])
+				gv := v.goValue()
+				run := func() ([]byte, error) {
+					if f[0] == "J" {
+						return api.Marshal(ownNestT{42, "inner-value", ownReJSON{depth, gv, api.Marshal}, "the-end"})
+					}
+					return api.Marshal(ownNestTextT{42, "inner-value", ownReText{depth, gv, api.Marshal}, "the-end"})
+				}
+				setBytes(run())
+				if f[2] == "0" && v.k < okTyped {
+					if v.hasBad() {
+						ref = "E"
+					} else {
+						ref = hex64(fnv64(ownNestText(depth, v.render(nil), f[0] == "K")))
+					}
+				}
+				key = call
+				again = func() string { return ownHashOf(run()) }
+			case "D":
+				// D|<o>|<val>: the encoder called from an UnmarshalJSON callback of the decoder
+				v := parseOwnVal(f[2])
+				api := ownAPIOf(f[1])
+				gv := v.goValue()
+				run := func() ([]byte, error) {
+					var t struct {
+						X ownDecCb `json:"x"`
+						Y string   `json:"y"`
+					}
+					t.X.v, t.X.enc = gv, api.Marshal
+					if err := sonic.Unmarshal([]byte(`{"x":[1,{"k":"v"}],"y":"after"}`), &t); err != nil || t.Y != "after" {
+						return nil, fmt.Errorf("decode failed")
+					}
+					return t.X.out, t.X.err
+				}
+				setBytes(run())
+				ref = stdHash(v, ownHTML(f[1]), false, "", "")
+				key = "M|" + f[1] + "|" + f[2]
+				again = func() string { return ownHashOf(run()) }
+			case "Z":
+				// Z|<o>|<val>: the stream encoder, two values
+				v := parseOwnVal(f[2])
+				gv := v.goValue()
+				run := func() ([]byte, error) {
+					var w bytes.Buffer
+					e := encoder.NewStreamEncoder(&w)
+					e.Opts = encOpts(f[1])
+					if err := e.Encode(gv); err != nil {
+						return nil, err
+					}
+					if err := e.Encode(gv); err != nil {
+						return nil, err
+					}
+					return w.Bytes(), nil
+				}
+				setBytes(run())
+				if f[1] == "0" && v.k < okTyped {
+					if v.hasBad() {
+						ref = "E"
+					} else {
+						one := append(v.render(nil), 10)
+						ref = hex64(fnv64(append(one, one...)))
+					}
+				}
+				key = call
+				again = func() string { return ownHashOf(run()) }
 			case "X":
 				n, _ := strconv.Atoi(f[1])
 				ownBurst(n, limit)
@@ -963,6 +1122,15 @@ func init() {
 			}
 			hashes = append(hashes, h)
 			refs = append(refs, ref)
+			if again != nil && ref != "-" && h != ref && dep == "-" {
+				// not the reference's bytes: empty the pools (two collections clear sync.Pool's victim cache too)
+				// and ask again - a different answer means the first one depended on the state of the pools
+				runtime.GC()
+				runtime.GC()
+				if h2 := again(); h2 != h {
+					dep = itoa(ci) + "~gc"
+				}
+			}
 			if key != "" && !r.none {
 				if h0, ok := firstHash[key]; ok {
 					if h0 != h && dep == "-" {
